@@ -532,6 +532,9 @@ func (m *Machine) visitInstr(fr *frame, instr ssa.Instruction) continuation {
 		panic(unsupported{"channel send"})
 
 	case *ssa.Store:
+		if _, ok := fr.get(instr.Addr).(*symPtr); ok {
+			panic(unsupported{"store through a symbolic index"})
+		}
 		addr := fr.get(instr.Addr).(*value)
 		if addr == nil {
 			m.nilDeref()
@@ -631,9 +634,13 @@ func (m *Machine) visitInstr(fr *frame, instr ssa.Instruction) continuation {
 
 	case *ssa.IndexAddr:
 		x := fr.get(instr.X)
-		idx := fr.get(instr.Index)
+		idx := m.idx64(fr.get(instr.Index), instr.Index.Type())
 		switch x := x.(type) {
 		case []value:
+			if sp := m.symElemPtr(x, idx); sp != nil {
+				fr.env[instr] = sp
+				break
+			}
 			i := m.indexCheck(idx, len(x))
 			fr.env[instr] = &x[i]
 		case *value: // *array
@@ -641,6 +648,10 @@ func (m *Machine) visitInstr(fr *frame, instr ssa.Instruction) continuation {
 				m.nilDeref()
 			}
 			a := (*x).(array)
+			if sp := m.symElemPtr(a, idx); sp != nil {
+				fr.env[instr] = sp
+				break
+			}
 			i := m.indexCheck(idx, len(a))
 			fr.env[instr] = &a[i]
 		default:
@@ -649,7 +660,7 @@ func (m *Machine) visitInstr(fr *frame, instr ssa.Instruction) continuation {
 
 	case *ssa.Index:
 		x := fr.get(instr.X)
-		idx := fr.get(instr.Index)
+		idx := m.idx64(fr.get(instr.Index), instr.Index.Type())
 		switch x := x.(type) {
 		case array:
 			fr.env[instr] = x[m.indexCheck(idx, len(x))]
@@ -701,6 +712,18 @@ func (m *Machine) visitInstr(fr *frame, instr ssa.Instruction) continuation {
 	return kNext
 }
 
+// idx64 widens a symbolic index to 64 bits according to its static type.
+func (m *Machine) idx64(idx value, t types.Type) value {
+	s, ok := idx.(*Sym)
+	if !ok || s.t.sort.W == 64 {
+		return idx
+	}
+	if isUnsignedT(t) {
+		return &Sym{m.ts.ZExt(s.t, 64)}
+	}
+	return &Sym{m.ts.SExt(s.t, 64)}
+}
+
 // indexCheck returns a concrete in-range index or raises the Go run-time panic.
 func (m *Machine) indexCheck(idx value, n int) int {
 	if s, ok := idx.(*Sym); ok {
@@ -716,6 +739,65 @@ func (m *Machine) indexCheck(idx value, n int) int {
 		panic(targetPanic{v: runtimeError(fmt.Sprintf("index out of range [%d] with length %d", i, n))})
 	}
 	return int(i)
+}
+
+// symPtr is the address of elems[idx] for a symbolic in-range idx; only loads are supported.
+type symPtr struct {
+	elems []value
+	idx   *Term
+}
+
+func isScalarVal(v value) bool {
+	switch v.(type) {
+	case bool, int, int8, int16, int32, int64, uint, uint8, uint16, uint32, uint64, uintptr, *Sym:
+		return true
+	}
+	return false
+}
+
+// symElemPtr handles &elems[idx] for symbolic idx over a table of scalars (bounds check forked).
+func (m *Machine) symElemPtr(elems []value, idx value) *symPtr {
+	s, ok := idx.(*Sym)
+	if !ok || len(elems) <= 8 {
+		return nil
+	}
+	for _, e := range elems {
+		if !isScalarVal(e) {
+			return nil
+		}
+	}
+	w := s.t.sort.W
+	if m.decide(m.ts.BVCmp("bvuge", s.t, m.ts.BVConst(uint64(len(elems)), w))) {
+		panic(targetPanic{v: runtimeError(fmt.Sprintf("index out of range [sym] with length %d", len(elems)))})
+	}
+	return &symPtr{elems: elems, idx: s.t}
+}
+
+func (m *Machine) loadSymPtr(sp *symPtr, t types.Type) value {
+	// default = most frequent concrete element
+	cnt := map[value]int{}
+	var def value
+	best := 0
+	for _, e := range sp.elems {
+		if !isSym(e) {
+			cnt[e]++
+			if cnt[e] > best {
+				best, def = cnt[e], e
+			}
+		}
+	}
+	if def == nil {
+		def = sp.elems[0]
+	}
+	acc := m.toTerm(def)
+	w := sp.idx.sort.W
+	for i, e := range sp.elems {
+		if !isSym(e) && e == def {
+			continue
+		}
+		acc = m.ts.Ite(m.ts.Eq(sp.idx, m.ts.BVConst(uint64(i), w)), m.toTerm(e), acc)
+	}
+	return m.fromTerm(t, acc)
 }
 
 // symIndexBytes reads bs[i] for a symbolic i as an ite chain (with a bounds check fork).
@@ -740,6 +822,9 @@ func (m *Machine) unop(fr *frame, instr *ssa.UnOp, x value) value {
 	case token.ARROW:
 		panic(unsupported{"channel receive"})
 	case token.MUL:
+		if sp, ok := x.(*symPtr); ok {
+			return m.loadSymPtr(sp, instr.Type())
+		}
 		p := x.(*value)
 		if p == nil {
 			m.nilDeref()
